@@ -5,7 +5,7 @@ passes without it; then stores it under /verif/seeded/<seed-id>/ and records whi
 import json, os, shutil, subprocess, sys
 prop, n, sid, needs = sys.argv[1:5]
 checks = sys.argv[5:] or [prop]
-wt = f"/tmp/seed_{prop}"
+wt = os.environ.get("SEED_WT_PREFIX", "/tmp/seed_") + prop
 diff = f"{wt}/seed/change{n}.diff"
 demo = f"{wt}/seed/demo{n}.py"
 def sh(cmd, **kw):
@@ -26,22 +26,26 @@ os.makedirs(out, exist_ok=True)
 shutil.copy(diff, f"{out}/patch.diff")
 shutil.copy(demo, f"{out}/demo.py")
 det = {}
-a = sh(f"git -C /repo apply {out}/patch.diff")
-assert a.returncode == 0, a.stderr
-sh("rm -rf /tmp/ev_backup_imp; cp -r /verif/evidence /tmp/ev_backup_imp")     # evidence must come from the unchanged tree
+# detection runs on a scratch copy of /repo's package with the patch applied (PYVC_REPO), so /repo itself, the evidence files
+# and any concurrently running check are left alone
+import tempfile
+T = tempfile.mkdtemp(prefix="seedimp_")
 try:
+    shutil.copytree("/repo/stackscope", T + "/stackscope")
+    a = sh(f"cd {T} && patch -p1 -s < {out}/patch.diff")
+    assert a.returncode == 0, a.stderr + a.stdout
     for c in checks:
-        r = sh(f"cd /verif && ./check {c}")
+        env = dict(os.environ, PYVC_REPO=T, PYVC_EVIDENCE_DIR=T + "/ev", PYVC_REPLAY_DIR="/tmp/seedreplays")
+        r = sh(f"cd /verif && ./check {c}", env=env)
         lines = [l for l in r.stdout.splitlines() if l.startswith(("VIOLATION", "UNDECIDED", "CHECKER"))][:4]
         det[c] = dict(exit=r.returncode, lines=lines)
 finally:
-    sh("git -C /repo checkout -- .")
-    sh("rm -rf /verif/evidence; mv /tmp/ev_backup_imp /verif/evidence")
+    shutil.rmtree(T, ignore_errors=True)
 meta = dict(id=sid, property=prop, needs=needs, source="independent sub-agent (saw only the property text and a scratch worktree)",
             confirmed=dict(tests_with_change=tests, demo_with_change_exit=r1.returncode, demo_without_change_exit=r0.returncode,
                            demo_failure=(r1.stderr or r1.stdout).strip().splitlines()[-1][:300]),
             ran=[f"git apply patch.diff (scratch worktree); pytest -> {tests}; demo.py -> exit {r1.returncode}; reverted; demo.py -> exit 0",
-                 "git -C /repo apply patch.diff; ./check <id>; git -C /repo checkout -- ."],
+                 "patch applied to a scratch copy of /repo/stackscope; PYVC_REPO=<copy> ./check <id>; copy removed"],
             detection=det)
 json.dump(meta, open(f"{out}/meta.json", "w"), indent=1)
 print(sid, {k: v["exit"] for k, v in det.items()})
